@@ -17,6 +17,7 @@ proves that on every text the builder can produce the two tellings agree (`scan_
 `invocation_text` in `Props.lean`): the regex removes the bare `*` item with its separator and
 nothing else - not the star of `*args`, not the stars of `**kw` - whatever the names are, as long
 as a name contains no `*`, no `,` and no white space.
+Conversely the text determines the items (`renderItems_inj`; names additionally without `=`).
 Names are spelled by an arbitrary `sp : Name → List Char` with that property.  Core Lean only.
 -/
 namespace C13
@@ -370,5 +371,211 @@ theorem starNotLast_format (args : List Name) (va vk : Option Name) (kwo : List 
       | cons k ks =>
         exact starNotLast_parts _ [Spec.bareStar] _ [Spec.dstar u] hargs hkw (hone _ rfl)
           (Or.inr ⟨rfl, by simp⟩)
+
+/-! ### the text determines the items
+
+The other direction of "source text is modelled as a list of items": nothing is lost by it.
+`splitItems` is `text.split(', ')`; on the text of an item list it gives back the texts of the
+items (`splitItems_render`), distinct items have distinct texts (`specText_inj`), hence two item
+lists with the same text are equal (`renderItems_inj`). -/
+
+/-- a name as it may be spelled in a parameter list: not empty; no star, comma, equals sign or
+    white space -/
+def IdentText (s : List Char) : Prop :=
+  s ≠ [] ∧ ∀ c ∈ s, c ≠ '*' ∧ c ≠ ',' ∧ c ≠ '=' ∧ isWs c = false
+
+/-- `text.split(', ')` for text whose items contain no comma -/
+def splitItems : List Char → List Char → List (List Char)
+  | acc, [] => [acc]
+  | acc, ',' :: ' ' :: r => acc :: splitItems [] r
+  | acc, c :: r => splitItems (acc ++ [c]) r
+
+theorem splitItems_sep (acc r : List Char) : splitItems acc (',' :: ' ' :: r) = acc :: splitItems [] r := by
+  rw [splitItems]
+
+theorem splitItems_other (acc : List Char) (c : Char) (r : List Char) (hc : c ≠ ',') :
+    splitItems acc (c :: r) = splitItems (acc ++ [c]) r := by
+  rw [splitItems]
+  intro r' h1 h2
+  exact hc h1
+
+theorem splitItems_plain (acc t rest : List Char) (h : ∀ c ∈ t, c ≠ ',') :
+    splitItems acc (t ++ rest) = splitItems (acc ++ t) rest := by
+  induction t generalizing acc with
+  | nil => simp
+  | cons c r ih =>
+    have hc : c ≠ ',' := h c (by simp)
+    rw [List.cons_append, splitItems_other _ _ _ hc, ih _ (fun d hd => h d (by simp [hd]))]
+    simp
+
+theorem specText_noComma (sp : Name → List Char) (hsp : ∀ n, IdentText (sp n)) (s : Spec) :
+    ∀ c ∈ specText sp s, c ≠ ',' := by
+  have hn : ∀ n, ∀ c ∈ sp n, c ≠ ',' := fun n c hc => ((hsp n).2 c hc).2.1
+  intro c hc
+  cases s with
+  | plain n => exact hn n c hc
+  | star n =>
+    simp only [specText, List.mem_cons] at hc
+    rcases hc with rfl | hc
+    · decide
+    · exact hn n c hc
+  | bareStar =>
+    simp only [specText, List.mem_cons, List.not_mem_nil, or_false] at hc
+    subst hc; decide
+  | kw k v =>
+    simp only [specText, List.mem_append, List.mem_cons] at hc
+    rcases hc with hc | rfl | hc
+    · exact hn k c hc
+    · decide
+    · exact hn v c hc
+  | dstar n =>
+    simp only [specText, List.mem_cons] at hc
+    rcases hc with rfl | rfl | hc
+    · decide
+    · decide
+    · exact hn n c hc
+
+/-- splitting the text at `', '` gives back the texts of the items -/
+theorem splitItems_render (sp : Name → List Char) (hsp : ∀ n, IdentText (sp n)) (s : Spec) (l : List Spec)
+    (acc : List Char) :
+    splitItems acc (renderItems sp (s :: l)) =
+      (acc ++ specText sp s) :: l.map (specText sp) := by
+  induction l generalizing s acc with
+  | nil =>
+    show splitItems acc (specText sp s) = _
+    have := splitItems_plain acc (specText sp s) [] (specText_noComma sp hsp s)
+    rw [List.append_nil] at this
+    rw [this, splitItems]; rfl
+  | cons t r ih =>
+    show splitItems acc (specText sp s ++ ',' :: ' ' :: renderItems sp (t :: r)) = _
+    rw [splitItems_plain _ _ _ (specText_noComma sp hsp s), splitItems_sep]
+    show (acc ++ specText sp s) :: splitItems [] (renderItems sp (t :: r)) = _
+    rw [ih t []]
+    simp
+
+/-- `a ++ x :: b` splits uniquely at the first `x` -/
+theorem append_cons_inj {x : Char} {a a' b b' : List Char} (ha : x ∉ a) (ha' : x ∉ a')
+    (h : a ++ x :: b = a' ++ x :: b') : a = a' ∧ b = b' := by
+  induction a generalizing a' with
+  | nil =>
+    cases a' with
+    | nil => simp at h; exact ⟨rfl, h⟩
+    | cons c r =>
+      simp only [List.nil_append, List.cons_append, List.cons.injEq] at h
+      exact absurd h.1 (fun e => ha' (by simp [e]))
+  | cons c r ih =>
+    cases a' with
+    | nil =>
+      simp only [List.nil_append, List.cons_append, List.cons.injEq] at h
+      exact absurd h.1.symm (fun e => ha (by simp [e]))
+    | cons c' r' =>
+      simp only [List.cons_append, List.cons.injEq] at h
+      obtain ⟨h1, h2⟩ := ih (fun hm => ha (by simp [hm])) (fun hm => ha' (by simp [hm])) h.2
+      exact ⟨by rw [h.1, h1], h2⟩
+
+/-- distinct items have distinct texts -/
+theorem specText_inj (sp : Name → List Char) (hsp : ∀ n, IdentText (sp n))
+    (hinj : ∀ n m, sp n = sp m → n = m) (s s' : Spec) (h : specText sp s = specText sp s') : s = s' := by
+  have hne : ∀ n, sp n ≠ [] := fun n => (hsp n).1
+  have hstar : ∀ n, '*' ∉ sp n := fun n hm => ((hsp n).2 _ hm).1 rfl
+  have heq : ∀ n, '=' ∉ sp n := fun n hm => ((hsp n).2 _ hm).2.2.1 rfl
+  have hhead : ∀ n r, sp n ≠ '*' :: r := fun n r e => hstar n (by rw [e]; simp)
+  have hkw : ∀ n k v, sp n ≠ sp k ++ '=' :: sp v := fun n k v e => heq n (by rw [e]; simp)
+  cases s <;> cases s' <;> simp only [specText] at h
+  case plain.plain n m => rw [hinj n m h]
+  case plain.star n m => exact absurd h (hhead n _)
+  case plain.bareStar n => exact absurd h (hhead n _)
+  case plain.kw n k v => exact absurd h (hkw n k v)
+  case plain.dstar n m => exact absurd h (hhead n _)
+  case star.plain n m => exact absurd h.symm (hhead m _)
+  case star.star n m => rw [hinj n m (List.cons.inj h).2]
+  case star.bareStar n => exact absurd (List.cons.inj h).2 (hne n)
+  case star.kw n k v =>
+    cases hk : sp k with
+    | nil => exact absurd hk (hne k)
+    | cons c r =>
+      rw [hk] at h
+      have : c = '*' := (List.cons.inj h).1.symm
+      exact absurd (by rw [hk, this]; simp) (hstar k)
+  case star.dstar n m => exact absurd (List.cons.inj h).2 (hhead n _)
+  case bareStar.plain m => exact absurd h.symm (hhead m _)
+  case bareStar.star m => exact absurd (List.cons.inj h).2.symm (hne m)
+  case bareStar.bareStar => rfl
+  case bareStar.kw k v =>
+    cases hk : sp k with
+    | nil => exact absurd hk (hne k)
+    | cons c r =>
+      rw [hk] at h
+      have : c = '*' := (List.cons.inj h).1.symm
+      exact absurd (by rw [hk, this]; simp) (hstar k)
+  case bareStar.dstar m => simp at h
+  case kw.plain k v m => exact absurd h.symm (hkw m k v)
+  case kw.star k v m =>
+    cases hk : sp k with
+    | nil => exact absurd hk (hne k)
+    | cons c r =>
+      rw [hk] at h
+      have : c = '*' := (List.cons.inj h).1
+      exact absurd (by rw [hk, this]; simp) (hstar k)
+  case kw.bareStar k v =>
+    cases hk : sp k with
+    | nil => exact absurd hk (hne k)
+    | cons c r =>
+      rw [hk] at h
+      have : c = '*' := (List.cons.inj h).1
+      exact absurd (by rw [hk, this]; simp) (hstar k)
+  case kw.kw k v k' v' =>
+    obtain ⟨h1, h2⟩ := append_cons_inj (heq k) (heq k') h
+    rw [hinj k k' h1, hinj v v' h2]
+  case kw.dstar k v m =>
+    cases hk : sp k with
+    | nil => exact absurd hk (hne k)
+    | cons c r =>
+      rw [hk] at h
+      have : c = '*' := (List.cons.inj h).1
+      exact absurd (by rw [hk, this]; simp) (hstar k)
+  case dstar.plain n m => exact absurd h.symm (hhead m _)
+  case dstar.star n m => exact absurd (List.cons.inj h).2.symm (hhead m _)
+  case dstar.bareStar n => simp at h
+  case dstar.kw n k v =>
+    cases hk : sp k with
+    | nil => exact absurd hk (hne k)
+    | cons c r =>
+      rw [hk] at h
+      have : c = '*' := (List.cons.inj h).1.symm
+      exact absurd (by rw [hk, this]; simp) (hstar k)
+  case dstar.dstar n m => rw [hinj n m (List.cons.inj (List.cons.inj h).2).2]
+
+theorem renderItems_ne_nil (sp : Name → List Char) (hsp : ∀ n, IdentText (sp n)) (s : Spec) (l : List Spec) :
+    renderItems sp (s :: l) ≠ [] := by
+  have hs : specText sp s ≠ [] := by
+    cases s <;> simp [specText, (hsp _).1]
+  cases l with
+  | nil => exact hs
+  | cons t r =>
+    show specText sp s ++ _ ≠ []
+    simp [hs]
+
+/-- the text determines the items: two item lists with the same text are the same list -/
+theorem renderItems_inj (sp : Name → List Char) (hsp : ∀ n, IdentText (sp n))
+    (hinj : ∀ n m, sp n = sp m → n = m) (l l' : List Spec)
+    (h : renderItems sp l = renderItems sp l') : l = l' := by
+  cases l with
+  | nil =>
+    cases l' with
+    | nil => rfl
+    | cons s r => exact absurd h.symm (renderItems_ne_nil sp hsp s r)
+  | cons s r =>
+    cases l' with
+    | nil => exact absurd h (renderItems_ne_nil sp hsp s r)
+    | cons s' r' =>
+      have h1 := splitItems_render sp hsp s r []
+      have h2 := splitItems_render sp hsp s' r' []
+      rw [h] at h1
+      rw [h1] at h2
+      simp only [List.nil_append, List.cons.injEq] at h2
+      have hmap : (s :: r).map (specText sp) = (s' :: r').map (specText sp) := by
+        simp only [List.map_cons, h2.1, h2.2]
+      exact (List.map_inj_right (fun a b hab => specText_inj sp hsp hinj a b hab)).mp hmap
 
 end C13
